@@ -122,7 +122,11 @@ def _fresh_real(st):
 
 
 REG.add(Contract("optlang/interface.py", "Model.optimize", "C04", [("self", SOLVER_T())],
-                 [Case("any", ensures=lambda E: E.s1.objs[E.s1.objs[E["self"].oid]["attr:objective"].oid]["attr:value"].v != z3.Real("NaN_const"))],
+                 [Case("any", ensures=lambda E: z3.And(
+                     E.s1.objs[E.s1.objs[E["self"].oid]["attr:objective"].oid]["attr:value"].v != z3.Real("NaN_const"),
+                     # an optimal LP has a finite optimum
+                     z3.Implies(_is_status(E.s1.objs[E["self"].oid]["attr:status"], "optimal"),
+                                E.s1.objs[E.s1.objs[E["self"].oid]["attr:objective"].oid]["attr:value"].k == 0)))],
                  modifies=_solver_loc, assumed=True, key="Solver.optimize",
                  result="opaque",
                  note="optlang/GLPK optimize(): sets status and objective value; status optimal => value is the true optimum "
@@ -145,10 +149,12 @@ def _so_post_value(E):
     ev = E["error_value"]
     res = E.res
     if isinstance(ev, VNone):
-        return z3.And(_so_optimal(E), xr_eq(E.eng.to_real(res), value_of(E.s1, E["self"]))) if isinstance(res, VReal) else z3.BoolVal(False)
+        return z3.And(_so_optimal(E), xr_eq(E.eng.to_real(res), value_of(E.s1, E["self"])),
+                      value_of(E.s1, E["self"]).k == 0) if isinstance(res, VReal) else z3.BoolVal(False)      # finite optimum
     if not isinstance(res, VReal):
         return z3.BoolVal(False)
     return z3.And(z3.If(_so_optimal(E), xr_eq(res, value_of(E.s1, E["self"])), xr_eq(res, E.eng.to_real(ev))),
+                  z3.Implies(_so_optimal(E), value_of(E.s1, E["self"]).k == 0),      # finite optimum
                   value_of(E.s1, E["self"]).v != z3.Real("NaN_const"))      # the solver's objective value is a number
 
 
